@@ -19,6 +19,8 @@ CONFIG_FLAGS = {
     "heap": ["-DUSE_MEMORY_ALLOCATION_FREE=0", "-DSIM_CONFIG_HEAP"],
     "noinfo": ["-DUSE_DEVICE_DEPENDENT_ERROR_INFORMATION=0", "-DSIM_CONFIG_NOINFO"],
     "dtostre": ["-DUSE_CUSTOM_DTOSTRE=1", "-DSIM_CONFIG_DTOSTRE"],
+    # the documented extension points: user status registers (one group with transition filters) and a user error list
+    "user": ["-DSCPI_USER_CONFIG=1", "-I" + os.path.join(SIM, "userconfig"), "-DSIM_CONFIG_USER"],
 }
 LIB_SRCS = ["error.c", "fifo.c", "ieee488.c", "minimal.c", "parser.c", "units.c", "utils.c", "lexer.c", "expression.c"]
 SAN = ["-fsanitize=address,undefined,float-cast-overflow", "-fno-sanitize-recover=all", "-fno-omit-frame-pointer"]
